@@ -82,6 +82,9 @@ class Tally:
 
 
 _WORK = None
+DEADLINE = None          # wall-clock cap for the whole check (set by the CLI for the
+                         # thorough tier); when hit, workers stop taking new chunks and
+                         # the evidence reports the cap and how many chunks were done
 KNOWN_FPS = set()        # fingerprints of listed known findings (set by the CLI)
 VIOLATION_BUDGET = 400   # per worker: once this many executions violated the
                          # property with unlisted fingerprints the verdict is
@@ -170,7 +173,10 @@ def _do_static(w):
     for j in range(w, len(_CHUNKS), procs):
         if deadline and time.time() > deadline:
             t.c["deadline_hit"] = 1
+            t.c["time_cap_hit"] = 1
+            t.inc("chunks_not_started", len(range(j, len(_CHUNKS), procs)))
             break
+        t.inc("chunks_done")
         if t.c.get("new_violating_executions", 0) >= VIOLATION_BUDGET:
             t.c["deadline_hit"] = 1
             t.c["stopped_after_violation_budget"] = 1
@@ -199,6 +205,8 @@ def run(work, items, chunksize=20, procs=None, initfn=None, progress=None,
     global _CHUNKS, _STATIC
     procs = procs or nproc()
     total = Tally()
+    if deadline is None:
+        deadline = DEADLINE
     if procs == 1:
         _init(work, initfn)
         for ch in chunks(items, chunksize):
@@ -208,6 +216,9 @@ def run(work, items, chunksize=20, procs=None, initfn=None, progress=None,
                 break
         return total
     _CHUNKS = list(chunks(items, chunksize))
+    if os.environ.get("VERIF_REVERSE_ITEMS"):
+        # development aid: exercise the families at the END of the list first
+        _CHUNKS.reverse()
     _STATIC = (procs, deadline)
     ctx = mp.get_context("fork")
     try:
